@@ -32,6 +32,15 @@ REQUIRED = [
     "component_refines", "component_protected", "component_asWritten_drops_mask",
     "component_asWritten_empty_mask_reads_out_of_bounds",
     "array2d_item_refines", "array2d_getslice_forward_refines", "array2d_forward_slices_accepted", "array2d_setitem_int_refines", "matrix_row_refines",
+    # 2-D / matrix / variable-array WRITES, string comparison, exported contents (were correspondence-only)
+    "array2d_positions_are_the_slice", "array2d_setitem_scalar_refines", "array2d_setitem_vector_refines",
+    "array2d_setitem_array1d_refines", "array2d_setitem_scalar_mask_refines", "array2d_setitem_vector_mask_refines",
+    "array2d_setitem_array1d_mask_refines", "matrix_rows_int", "matrix_rows_slice", "matrix_setitem_scalar_refines",
+    "matrix_setitem_vector_refines", "matrix_setitem_matrix_refines",
+    "varray_setelem_refines", "varray_setrow_refines", "varray_setrow_mask_refines", "varray_setvec_refines",
+    "varray_setvec_mask_refines", "varray_setsize_refines", "varray_setsize_vec_refines", "varray_setsize_mask_refines",
+    "string_eq_arrays_refines", "string_eq_scalar_refines",
+    "buffer_export_contents", "buffer_export_1d_offsets", "buffer_export_2d_offsets",
     "varray_getitem_refines", "varray_size_refines", "varray_getslice_refines", "varray_forward_slices_accepted",
     "varray_getmask_refines", "varray_readonly_raises",
     "string_table_bijection", "string_table_intern", "string_array_reads_last_stored", "string_array_create_repr",
@@ -359,6 +368,22 @@ def buffers(chk):
                     "classes_without_expectation": ec["unknown"] + missing})
         chk.count(ec["cases"], ec["cases"])
         chk.extra["buffer_export_check"] = {"cases": ec["cases"], "classes": {c: v["layout"] + [v["components"]] for c, v in ec["classes"].items()}}
+        # ---- the Lean model of the exported view (exportBytes; theorems export_contents / export_1d / export_2d): what a consumer
+        #      reads through memoryview(a) must be what the model computes from the array's storage, length, stride and offset
+        mc = [m for m in ec.get("model_cases", []) if bycls.get(m["cls"])]
+        reqs = ["buf export 1 %d %d %d %d %d %d %s" % (bycls[m["cls"]][0], bycls[m["cls"]][1], bycls[m["cls"]][2], m["length"],
+                                                      m["stride"], m["off"], m["mem"] or "-") for m in mc]
+        _, mo = c19lib.run_model("\n".join(reqs) + "\n") if reqs else (0, [])
+        badm = [(m["what"], mo[i].strip()[:60], m["tobytes"][:60]) for i, m in enumerate(mc)
+                if mo[i].strip() != "ok " + m["tobytes"] and not (m["tobytes"] == "" and mo[i].strip() == "ok")]
+        chk.oblige("buffer:export-contents:model(exportBytes)=real(tobytes)", "correspondence", bool(mc) and not badm,
+                   {"cases": len(mc), "dense": sum(1 for m in mc if m["stride"] == 1), "strided(component arrays)": sum(1 for m in mc if m["stride"] > 1),
+                    "bad": badm[:3]})
+        chk.count(len(mc), len(mc))
+        if badm:
+            chk.fail("buffer:export-contents:model(exportBytes)=real(tobytes)", "buffer-export-contents-model:" + badm[0][0].split("(")[0],
+                     "the bytes read through memoryview(%s) differ from the model's exported view of the array's storage" % badm[0][0],
+                     {"first": badm[0], "all": [b[0] for b in badm]}, True)
         seen = set()
         for b in ec["bad"]:
             cname = b["what"].split("(")[0]
